@@ -144,7 +144,8 @@ def entries(db, qt, cat, base, other, cur=None):
         ("db.Convert(qt,u,base,FractionValue)", lambda u: db.Convert(qt, u, base, FractionValue(3, (1, 4)))),
         ("db.Convert(qt,base,u,FractionValue)", lambda u: db.Convert(qt, base, u, FractionValue(3, (1, 4)))),
         ("db.Convert(category,u,other,FractionValue)", lambda u: db.Convert(cat, u, other, FractionValue(2.5))),
-        ("FractionScalar.ConvertFractionValue", lambda u: FractionScalar.ConvertFractionValue(db, qt, u, base, FractionValue(3, (1, 4)))),
+        ("FractionScalar.ConvertFractionValue", lambda u: FractionScalar.ConvertFractionValue(FractionValue(3, (1, 4)), qt, u, base)),
+        ("FractionScalar.ConvertFractionValue(to u)", lambda u: FractionScalar.ConvertFractionValue(FractionValue(3, (1, 4)), ObtainQuantity(base, cat), base, u)),
         ("db.GetDefaultCategory(u)", lambda u: db.GetDefaultCategory(u)),
         ("ChangeScalars", change_scalars),
         ("FixedArray.ChangingIndex(0,(x,u))", lambda u: FixedArray(2, cat, [x, 1.0], base).ChangingIndex(0, (5.0, u))),
